@@ -22,6 +22,7 @@ type HarnessCfg struct {
 	Reach    []string       `json:"reach"`
 	Unwind   int            `json:"unwind"`
 	Steps    int            `json:"steps"`
+	Depth    int            `json:"depth"` // call depth limit (default 200)
 	MaxPaths int            `json:"max_paths"`
 	Note     string         `json:"note"`
 	Bounds   string         `json:"bounds"`
@@ -200,7 +201,10 @@ func Explore(env *Env, fn *ssa.Function, cfg HarnessCfg, params map[string]int, 
 func (w *Worker) runPath(fn *ssa.Function, cfg HarnessCfg, params map[string]int, prefix []int64) (pending []workItem) {
 	p := &Path{w: w, tt: w.tt, s: w.s, prefix: prefix, varSet: map[*Term]bool{},
 		reach: map[string]int{}, harness: cfg.Func, stubs: map[string]bool{}, funcs: map[string]int{},
-		maxSteps: 2000000, unwind: 100000, numCPU: 2}
+		maxSteps: 2000000, maxDepth: 200, unwind: 100000, numCPU: 2}
+	if cfg.Depth > 0 {
+		p.maxDepth = cfg.Depth
+	}
 	if cfg.Steps > 0 {
 		p.maxSteps = cfg.Steps
 	}
